@@ -250,7 +250,7 @@ Definition finish_main (c : cfg) (f m : nat) (cached : list nat) (s1 : state) : 
       end
   end.
 
-Definition load_main (fs : list file) (c : cfg) (f : nat) (s0 : state) : (err + nat) * state :=
+Definition load_main_raw (fs : list file) (c : cfg) (f : nat) (s0 : state) : (err + nat) * state :=
   let s := begin_op c s0 in
   match (if cglobal c then dget f (allm s) else None) with
   | Some m =>   (* cached: the processors run again only if the source says so (Gen/SrcRepo.v) *)
@@ -262,8 +262,54 @@ Definition load_main (fs : list file) (c : cfg) (f : nat) (s0 : state) : (err + 
       end
   end.
 
+(* ---------- a main model loaded from a string: metamodel.model_from_str without a file name.
+   No file is read and nothing is looked up in the global repository; the metamodel's callback does not
+   register the model; the model loading providers (GlobalRepo: the registered patterns, given here as the
+   content's fimports) register it through update_model_in_repo_based_on_filename under the first free invented
+   name 'anonymousN' (key |files| + N; the name is free when it is chosen and the model keeps it, so the later
+   by-value search of that function finds it again); resolution, processors and cleanups as for a file. *)
+Fixpoint first_free (k fuel : nat) (ks : list nat) : nat :=
+  match fuel with
+  | 0 => k
+  | S f => if mem k ks then first_free (S k) f ks else k
+  end.
+Definition anon_key (fs : list file) (s : state) : nat :=
+  first_free (length fs) (length (allm s)) (map fst (allm s)).
+
+Definition load_str_raw (fs : list file) (c : cfg) (fc : file) (s0 : state) : (err + nat) * state :=
+  let s := begin_op c s0 in
+  let k := anon_key fs s in
+  if fsyn fc then (inl (ESyntax k), s) else
+  let m := length (heap s) in
+  let s2 := alloc k fc s in
+  let '(r, s4) := if (clazy c && is_nil (frefs fc))%bool then (None, s2)
+                  else load_stmts (load_file fs c (S (length fs)) false) m k (fimports fc) s2 in
+  match r with
+  | Some e => (inl e, handler m s4)
+  | None => finish_main c k m (map snd (allm s)) s4
+  end.
+
+(* Garbage collection at the end of a top-level load.  Model objects are heap indices, and Python frees
+   what nothing refers to: after a FAILED load the models created by the attempt (indices >= the heap size at
+   its start) are unreachable - that is C18_clean, proved on load_main_raw - so they are dropped from the heap
+   and from the per-model tables; after a successful load nothing is dropped.  `locals` is a finite map; it is
+   kept in the normal form "ascending model index, non-empty entries only". *)
+Definition nonempty_entry (e : nat * list (nat * nat)) : bool := negb (is_nil (snd e)).
+Definition norm_locals (n : nat) (s : state) : list (nat * list (nat * nat)) :=
+  filter nonempty_entry (map (fun x => (x, local_of x s)) (seq 0 n)).
+Definition tidy (n : nat) (s : state) : state :=
+  mkState (firstn n (heap s)) (allm s) (norm_locals n s) (filter (fun x => Nat.ltb x n) (constr s))
+          (filter (fun kv => Nat.ltb (fst kv) n) (targets s)) (reads s) (curop s).
+Definition live_bound (s0 : state) (r : (err + nat) * state) : nat :=
+  match fst r with inl _ => length (heap s0) | inr _ => length (heap (snd r)) end.
+Definition load_main (fs : list file) (c : cfg) (f : nat) (s0 : state) : (err + nat) * state :=
+  let r := load_main_raw fs c f s0 in (fst r, tidy (live_bound s0 r) (snd r)).
+
 (* ---------- histories *)
-Inductive op := OLoad (f : nat) | OWrite (f : nat) (fc : file).
+Definition load_str (fs : list file) (c : cfg) (fc : file) (s0 : state) : (err + nat) * state :=
+  let r := load_str_raw fs c fc s0 in (fst r, tidy (live_bound s0 r) (snd r)).
+
+Inductive op := OLoad (f : nat) | OWrite (f : nat) (fc : file) | OLoadStr (fc : file).
 Fixpoint set_nth {A} (i : nat) (x : A) (l : list A) : list A :=
   match l, i with
   | [], _ => []
@@ -282,4 +328,5 @@ Fixpoint run_hist (c : cfg) (fs : list file) (s : state) (ops : list op) : state
   | [] => s
   | OWrite f fc :: t => run_hist c (set_nth f fc fs) s t
   | OLoad f :: t => run_hist c fs (snd (load_main fs c f s)) t
+  | OLoadStr fc :: t => run_hist c fs (snd (load_str fs c fc s)) t
   end.
